@@ -627,6 +627,84 @@ def atom_roundtrip(rep: Report) -> None:
     rep.count("atoms_roundtripped", total)
 
 
+# --------------------------------------------------------------------------- B2: behaviours of the Closure machine on real markers
+def _nf_b2_chunk(args):
+    files, vars_, dom = args
+    from dep_logic.markers import parse_marker
+    grid = nf_grid(vars_, dom)
+    envs = [env for _, env in grid]
+    fails, steps = [], 0
+    for path in files:
+        beh = tla.parse_sim_file(path)
+        try:
+            x, y = parse_marker(nf_text(beh[0]["x"])), parse_marker(nf_text(beh[0]["y"]))
+        except Exception as e:  # noqa: BLE001
+            fails.append(("C07", f"C07:nf-b2:parse-raises-{type(e).__name__}", repr(e), {"kind": "nf-behaviour"}))
+            continue
+        trail = []
+        for st in beh[1:]:
+            op = st["op"]
+            trail.append(op)
+            ctx = {"kind": "nf-behaviour", "init": [nf_text(beh[0]["x"]), nf_text(beh[0]["y"])], "trail": list(trail)}
+            if op == "swap":
+                x, y = y, x
+                continue
+            res, exc = drive_marker.timed((lambda: x & y) if op == "and" else (lambda: x | y))
+            if exc == "Timeout":
+                break
+            if exc:
+                fails.append(("C02", f"C02:nf-b2:{op}:raises-{exc}", f"{ctx['init']} then {trail}: {exc}", ctx))
+                break
+            steps += 1
+            want = [nf_holds(st["x"], ab) for ab, _ in grid]
+            got = drive_marker.table_of(res, envs)
+            ctx["result"] = drive_marker._key(res)
+            if got != want:
+                fails.append(("C02", f"C02:nf-b2:{op}:table", f"{ctx['init']} then {trail} -> {ctx['result']!r}: truth table differs from the specification's register", ctx))
+                break
+            reason = nf_reason(drive_marker.shape_of(res))
+            if reason:
+                fails.append(("C15", f"C15:{op}:normal_form:{reason}", f"{ctx['init']} then {trail} -> {ctx['result']!r}", ctx))
+            try:
+                text = str(res)
+                if ("<empty>" in text and not res.is_empty()) or drive_marker.table_of(parse_marker(text), envs) != got:
+                    fails.append(("C07", f"C07:nf-b2:{op}:roundtrip", f"{ctx['init']} then {trail} renders as {text!r}", ctx))
+            except Exception as e:  # noqa: BLE001
+                fails.append(("C07", f"C07:nf-b2:{op}:raises-{type(e).__name__}", repr(e), ctx))
+            x = res
+    return steps, fails
+
+
+def nf_behaviours(rep: Report, pid: str, num: int, depth: int) -> None:
+    """B2 for markers: TLC -simulate behaviours of MarkerNormalForm/Closure (results become operands) are stepped
+    through REAL marker objects; after every step the truth table, the normal form and the rendering are checked."""
+    tmp = tempfile.mkdtemp(prefix="verif_nfb2_")
+    try:
+        cfgp = os.path.join(tmp, "c.cfg")
+        open(cfgp, "w").write('SPECIFICATION ClosureSpec\nCONSTANTS\n Vars = {"p", "r"}\n Dom = {1, 2, 3}\n AtomSel <- SelQuick\nINVARIANT ClosureNormal\nCHECK_DEADLOCK FALSE\n')
+        os.makedirs(os.path.join(tmp, "sim"))
+        r = tla.run_tlc("MarkerNormalFormMC.tla", cfgp, workers=1, timeout=900, heap="4g",
+                        args=["-simulate", f"file={tmp}/sim/tr,num={num}", "-depth", str(depth), "-seed", str(rep.seed + 5)])
+        if r.violated:
+            rep.violation(f"{pid}:spec:MarkerNormalForm:simulate:{r.violated}", "TLC simulation violated ClosureNormal", {"tlc_tail": r.out[-1500:]})
+        files = sorted(os.path.join(tmp, "sim", f) for f in os.listdir(os.path.join(tmp, "sim")))
+        if not files:
+            raise tla.MachineryError("TLC -simulate wrote no behaviour files: " + r.out[-600:])
+        size = max(1, len(files) // 32)
+        steps = 0
+        with mp.Pool(16) as pool:
+            for n, fails in pool.map(_nf_b2_chunk, [(files[i:i + size], ["p", "r"], [1, 2, 3]) for i in range(0, len(files), size)]):
+                steps += n
+                for (p, sig, detail, vec) in fails:
+                    if p == pid:
+                        rep.violation(sig, detail, vec)
+        rep.add("traces_validated_against_impl", len(files))
+        rep.count("nf_behaviours_replayed", len(files))
+        rep.count("nf_behaviour_steps", steps)
+    finally:
+        shutil.rmtree(tmp, ignore_errors=True)
+
+
 def normal_form_mc(rep: Report, pid: str, thorough: bool) -> None:
     """TLC on MarkerNormalForm (the transcribed rewriting engine) + replay of every transition."""
     if pid == "C12":
@@ -684,6 +762,8 @@ def run(pid: str, tier: str, replay: str | None = None) -> int:
         return _replay(rep, replay)
     if pid in ("C02", "C15", "C12", "C07"):
         normal_form_mc(rep, pid, thorough)
+    if pid in ("C02", "C15", "C07"):
+        nf_behaviours(rep, pid, num=(4000 if thorough else 500), depth=(8 if thorough else 6))
     if pid == "C07":
         atom_roundtrip(rep)
     if pid == "C02":
